@@ -14,6 +14,7 @@ func runC01(c *ev.Ctx) {
 	c.Rule = "multi-epoch DAGs (1..10 validators, thorough ..16; all weight regimes; lag, partitions, forks by a <1/3-weight cheater set; validator-set changes at seeded sealing frames) generated through a real instance; " +
 		"k fresh instances process the per-epoch event sets in different parents-first orders (random topological, depth-first, breadth-first, one creator as late / as early as possible, roots last / first) with three vector-index cache configurations; " +
 		"oracle: every Process returns nil, every instance seals each epoch, and all block logs (epoch, frame, Atropos, cheaters, sealed flag) are pairwise equal to the generating instance's log. " +
+		"Plus targeted seals: dry runs find frames that some order decides inside the Process call of a multi-frame root or in a cascade; the epoch is sealed exactly there and 6 orders must accept every event, seal, and emit equal logs. " +
 		"non-trivial = distinct DAG fingerprint with >=3 blocks and >=2 orders that differ in the arrival order of root events"
 	c.Assumptions = []string{"events are valid by construction (built through Build, parents exist, Lamport/seq consistent)", "cheaters hold < 1/3 of the weight in every epoch",
 		"left-over events of a sealed epoch are dropped by the driver, as the epoch checker does in a node"}
@@ -31,5 +32,7 @@ func runC01(c *ev.Ctx) {
 			}
 			return ok && len(fps) >= 2
 		}}
+	nSeal := c.Pick(1000, 12000)
+	c.Parallel(nSeal, 0, func(i int) { c01TargetedSeal(c, i) })
 	runCampaign(c, o)
 }
